@@ -9,6 +9,9 @@ KW = {'published': '__published', 'public': 'public', 'protected': 'protected', 
 def gen_world(rng):
     w = {'promiscuous': rng.random() < 0.35, 'files': [], 'classes': [], 'n': {'ignoremember': [], 'ignoreinvolved': [], 'ignoretype': [], 'ignorefile': []}}
     hows = ['cmdline'] + rng.sample(['cwd', 'alt', 'sys', 'cmdline2'], rng.randrange(1, 4))
+    if rng.random() < 0.35:
+        # a command-line file in a subdirectory with a sibling header it includes by quote: the sibling is neither named nor in the working directory
+        hows += ['cmdline3', 'sibling']
     cid = [0]
     eid = [0]
 
@@ -17,7 +20,7 @@ def gen_world(rng):
         return eid[0]
 
     for how in hows:
-        f = {'how': how, 'name': {'cmdline': 'main.h', 'cmdline2': 'second.h', 'cwd': 'cwd_inc.h', 'alt': 'alt_inc.h', 'sys': 'sys_inc.h'}[how], 'items': []}
+        f = {'how': how, 'name': {'cmdline': 'main.h', 'cmdline2': 'second.h', 'cwd': 'cwd_inc.h', 'alt': 'alt_inc.h', 'sys': 'sys_inc.h', 'cmdline3': 'third.h', 'sibling': 'sib_inc.h'}[how], 'items': []}
         w['files'].append(f)
         for _ in range(rng.randrange(1, 3)):
             k = {'kind': 'class', 'id': cid[0], 'name': 'K%d' % cid[0], 'file': f, 'region': rng.random() < 0.3, 'template': rng.random() < 0.08,
@@ -35,7 +38,9 @@ def gen_world(rng):
         if f['how'] == 'cmdline':
             return [c for c in allk if c['file']['how'] in ('cmdline', 'cwd', 'alt', 'sys')]
         if f['how'] == 'cmdline2':
-            return list(allk)
+            return [c for c in allk if c['file']['how'] not in ('cmdline3', 'sibling')]
+        if f['how'] == 'cmdline3':
+            return [c for c in allk if c['file']['how'] in ('cmdline3', 'sibling')]
         return [c for c in allk if c['file'] is f]
 
     def gen_type(owner=None):
@@ -96,6 +101,17 @@ def gen_world(rng):
             else:
                 k['members'].append({'kind': 'element', 'name': 'e%d' % fresh(), 'vis': vis})
         rng.shuffle(k['members'])
+        # a __begin_publish ... __end_publish region inside the body: its members are published, the section continues afterwards with its own visibility
+        k['members'].sort(key=lambda m: VIS.index(m['vis']))          # group by section so that a region can sit inside one
+        if not k['region'] and len(k['members']) >= 2 and rng.random() < 0.4:
+            i = rng.randrange(len(k['members']))
+            v = k['members'][i]['vis']
+            j = i
+            while j + 1 < len(k['members']) and k['members'][j + 1]['vis'] == v and rng.random() < 0.5:
+                j += 1
+            if j + 1 < len(k['members']) and k['members'][j + 1]['vis'] == v or rng.random() < 0.5:
+                for m in k['members'][i:j + 1]:
+                    m['pubregion'] = True
     for f in w['files']:
         cur_file[0] = f
         for _ in range(rng.randrange(1, 5)):
@@ -171,6 +187,8 @@ def render_file(w, f):
                 L.append('#include <%s>' % g['name'])
     if f['how'] == 'cmdline2':
         L.append('#include "main.h"')
+    if f['how'] == 'cmdline3':
+        L.append('#include "sib_inc.h"')
     tdcount = w.setdefault('_td', [0])
     # forward declarations so that any class can be mentioned anywhere
     for k in w['classes']:
@@ -186,16 +204,25 @@ def render_file(w, f):
                 L.append('%s:' % k['prot_vis'])
                 L.append('  class P { public: int x; };')
             cur = None
+            inreg = False
             for m in k['members']:
+                if inreg and not m.get('pubregion'):
+                    L.append('__end_publish')
+                    inreg = False
                 if m['vis'] != cur:
                     L.append('%s:' % KW[m['vis']])
                     cur = m['vis']
+                if m.get('pubregion') and not inreg:
+                    L.append('__begin_publish')
+                    inreg = True
                 if m['kind'] == 'element':
                     L.append('  int %s;' % m['name'])
                 else:
                     pre, txt = render_fn(m, '  ', k, tdcount)
                     L += pre
                     L.append(txt)
+            if inreg:
+                L.append('__end_publish')
             L.append('};')
             if k['region']:
                 L.append('__end_publish')
